@@ -394,7 +394,15 @@ func (w *world) canon(evs []event) []string {
 		r := byID[e.reg]
 		return fmt.Sprintf("%s/%d/%d/%d/%s", r.owner, r.col, r.when, normTarget(r), e.obj)
 	}
-	var out []string
+	// the statement fixes the nesting (table, columns, rows ..., columns, table), not which column comes first:
+	// the columns' own callbacks of one phase form one block, compared without regard to the order of the columns
+	block := func(e event) string {
+		if r := byID[e.reg]; r.owner == "column" && normTarget(r) == tItself {
+			return fmt.Sprintf("columns-themselves/%d", r.when)
+		}
+		return ""
+	}
+	var out, blocks []string
 	i := 0
 	for i < len(evs) {
 		j := i
@@ -407,7 +415,16 @@ func (w *world) canon(evs []event) []string {
 		}
 		sort.Ints(ids)
 		out = append(out, fmt.Sprintf("%s<-%v", slot(evs[i]), ids))
+		blocks = append(blocks, block(evs[i]))
 		i = j
+	}
+	for a := 0; a < len(out); {
+		b := a + 1
+		for blocks[a] != "" && b < len(out) && blocks[b] == blocks[a] {
+			b++
+		}
+		sort.Strings(out[a:b])
+		a = b
 	}
 	return out
 }
